@@ -32,6 +32,11 @@ ISA = {
             'ra': {'type': 'register', 'register': 'a', 'bytecode': {'value': 1, 'size': 4}},
             'n': {'type': 'numeric', 'bytecode': {'value': 15, 'size': 4}, 'argument': {'size': 8, 'byte_align': True}}}},
         'addr': {'operand_values': {'ad': {'type': 'address', 'argument': {'size': 16, 'byte_align': True}}}},
+        # two alternatives of one kind that accept the same text: whichever rule orders them, it is the same in every run
+        'two': {'operand_values': {
+            'short': {'type': 'numeric', 'bytecode': {'value': 1, 'size': 4}, 'argument': {'size': 8, 'byte_align': True}},
+            'wide': {'type': 'numeric', 'bytecode': {'value': 2, 'size': 4}, 'argument': {'size': 16, 'byte_align': True}},
+            'rb': {'type': 'register', 'register': 'b', 'bytecode': {'value': 3, 'size': 4}}}},
     },
     'instructions': {
         'nop': {'bytecode': {'value': 0xEA, 'size': 8}},
@@ -44,6 +49,7 @@ ISA = {
         'movxb': {'bytecode': {'value': 0xC2, 'size': 8}},
         'w': {'bytecode': {'value': 0xC3, 'size': 8}},
         'jmp': {'bytecode': {'value': 0x4C, 'size': 8}, 'operands': {'count': 1, 'operand_sets': {'list': ['addr']}}},
+        'pick': {'bytecode': {'value': 0x7, 'size': 4}, 'operands': {'count': 1, 'operand_sets': {'list': ['two']}}},
     },
     'macros': {'mac': [{'operands': {'count': 2, 'operand_sets': {'list': ['reg', 'imm']}}, 'instructions': ['ld @REG(0), @ARG(1)', 'ldx @ARG(1)']}],
                'ma': [{'instructions': ['nop', 'l']}]},
@@ -68,6 +74,7 @@ PROGRAMS = [
                                                             'd3/u1.asm': 'u1l: ld a, 1\n'}, ('d1', 'd2', 'd3')),
     ('layout-time expressions across zones', {'main.asm': '.memzone zz\nza: .byte 1, 2, 3\nza_end:\n.memzone zy\nzb: .fill za_end - za, $EE\n'
                                                           '.memzone GLOBAL\n nop\n.org 8 "zz"\n .byte 9\n.memzone zy\n.zerountil zb + 5\n'}, ()),
+    ('alternatives of one kind', {'main.asm': 'p0: pick 5\n pick KC\n pick b\n pick p0 + 1\n nop\n'}, ()),
     ('several -D', {'main.asm': ' .byte LA, LB, LC\n#if LC >= 1\n nop\n#endif\n'}, ()),
     ('one name in several -D', {'main.asm': ' .byte LV\n#if LV >= 2\n nop\n#endif\n'}, ()),
 ]
@@ -80,7 +87,7 @@ FORMATS_B = ['listing', 'hex', 'intel_hex', 'minhex']
 def meta(tier):
     q = tier == 'quick'
     return {
-        'rule': 'part A: 12 programs (several include directories with unique, ambiguous, shadowing, nested, linked and missing files; registers; '
+        'rule': 'part A: 13 programs (several include directories with unique, ambiguous, shadowing, nested, linked and missing files; registers; '
                 'mnemonics that are prefixes of one another or contain a period; macros; symbols; zones; several -D definitions, also of one name; directives whose size or target is computed from labels of another zone) x 2 output formats; the default '
                 'schedule and every schedule with one (thorough: two) deviating choice point (all permutations for sets of <=4 elements, '
                 'reversal and every rotation above) must produce identical status, image and pretty print; the default schedule is '
